@@ -120,3 +120,15 @@ package surveyor
 //@   before select#1 assert selwaits(p.closeQ)
 //@
 // ---- end generated wake-on-close contracts ----
+// ---- generated default contracts (tools/gen_default_contracts.py) ----
+//@ func NewProtocol
+//@   ensures cast("*socket", result).closed == false
+//@   ensures cast("*socket", result).sendQLen == 128
+//@   ensures cast("*socket", result).master != nil && cast("*socket", result).master.s == cast("*socket", result)
+//@   ensures cast("*socket", result).master.closed == false
+//@   ensures cast("*socket", result).master.closeQ != nil && !closed(cast("*socket", result).master.closeQ)
+//@   ensures cast("*socket", result).master.recvQLen == 128
+//@   ensures cast("*socket", result).master.recvExpire == 0
+//@   ensures cast("*socket", result).master.survExpire == 1000000000
+//@
+// ---- end generated default contracts ----
